@@ -101,6 +101,20 @@ pub fn check(c: &Case) -> Outcome {
                         o => return fail(format!("`{src}` for {} : expected {} ({}), observed {}", t.text(), want[k], a, o.show())),
                     }
                 }
+                if !*from_text && k % 3 == (t.s as usize) % 3 {
+                    // the same value handed over through the crate's serde wrapper
+                    let src = format!("{e}.{a}()");
+                    match sut::run_src_wrapped(&src, &vars) {
+                        Ran::Done(R::Val(V::Int(g))) if g == want[k] => {}
+                        o => return fail(format!("`{src}` for {} supplied as cel_interpreter::Timestamp: expected {} ({}), observed {}", t.text(), want[k], a, o.show())),
+                    }
+                }
+            }
+            if !*from_text {
+                match sut::run_src_wrapped("t", &vars) {
+                    Ran::Done(R::Val(V::Ts(s, n, o))) if s == t.secs() && n == t.nanos && o == t.off => {}
+                    o => return fail(format!("{} supplied as cel_interpreter::Timestamp should be instant {} s + {} ns at offset {} s, observed {}", t.text(), t.secs(), t.nanos, t.off, o.show())),
+                }
             }
             let (nt, cl) = t_class(t);
             pass_n(nt, vec![cl, if *from_text { "accessors-from-text" } else { "accessors-from-value" }])
@@ -135,6 +149,20 @@ pub fn check(c: &Case) -> Outcome {
                 match sut::run_src(src, &vars) {
                     Ran::Done(R::Val(V::Bool(g))) if g == want => {}
                     o => return fail(format!("`{src}` with a = {} and a2 = the same instant at offset {} s: expected {want}, observed {}", a.text(), other_off, o.show())),
+                }
+            }
+            // accessors of the two spellings of one instant, interleaved in one program: each reports its own local time
+            {
+                let (fa, fb) = (fields(a.secs(), a.nanos, a.off), fields(a.secs(), a.nanos, *other_off));
+                let pick = |f: &crate::model::cal::Fields, k: usize| -> i64 { [f.year, f.month as i64 - 1, f.day as i64 - 1, f.day as i64, f.day_of_year as i64, f.weekday as i64, f.hour as i64, f.minute as i64, f.second as i64, (f.nanos / 1_000_000) as i64][k] };
+                for (k, acc) in ACCESSORS.iter().enumerate() {
+                    let src = format!("[a.{acc}(), a2.{acc}(), a.{acc}(), b.{acc}(), a2.{acc}()]");
+                    let fbb = fields(b.secs(), b.nanos, b.off);
+                    let want = V::List(vec![V::Int(pick(&fa, k)), V::Int(pick(&fb, k)), V::Int(pick(&fa, k)), V::Int(pick(&fbb, k)), V::Int(pick(&fb, k))]);
+                    match sut::run_src(&src, &vars) {
+                        Ran::Done(R::Val(g)) if crate::model::same(&g, &want) => {}
+                        o => return fail(format!("`{src}` with a = {}, a2 = the same instant at offset {} s, b = {}: expected {want:?}, observed {}", a.text(), other_off, b.text(), o.show())),
+                    }
                 }
             }
             // text form too
@@ -180,6 +208,13 @@ pub fn check(c: &Case) -> Outcome {
                 Ran::Done(R::Val(v @ V::Ts(..))) if v.ts_total_ns() == Some(want) => {}
                 Ran::Done(R::Err(..)) if !plus_ok => {}
                 o => return fail(format!("`t + d` with t = {} d = {} ns should be the instant {} ns, observed {}", t.text(), d_ns, want, o.show())),
+            }
+            // the duration written out the way string(d) prints it
+            let src = format!("t + duration({}) == t + d", lit::str_lit(&crate::model::dur::go_format(*d_ns as i128)));
+            match sut::run_src(&src, &vars) {
+                Ran::Done(R::Val(V::Bool(true))) => {}
+                Ran::Done(R::Err(..)) if !plus_ok => {}
+                o => return fail(format!("`{src}` with t = {} d = {} ns: expected true, observed {}", t.text(), d_ns, o.show())),
             }
             let diff = t.total_ns() - u.total_ns();
             match sut::run_src("t - u", &vars) {
